@@ -1009,6 +1009,13 @@ def _finalize_fairy(
             if connection_record:
                 connection_record.invalidate(e=e)
             if not isinstance(e, Exception):
+                # return the (now invalidated) record to the pool before
+                # propagating, so that its slot is not lost
+                if (
+                    connection_record
+                    and connection_record.fairy_ref is not None
+                ):
+                    connection_record.checkin()
                 raise
         finally:
             if detach and is_gc_cleanup and dont_restore_gced:
